@@ -105,10 +105,26 @@ class Forbidden(oracles.OracleProtocol):
     pass
 
 
+_NPR = []
+
+
+def _numpy_random():
+    if not _NPR:
+        try:
+            import numpy.random as npr
+            _NPR.append(npr)
+        except Exception:  # noqa: BLE001
+            _NPR.append(None)
+    return _NPR[0]
+
+
 @contextlib.contextmanager
 def strict_scripted(script):
     """oracles.scripted + every other way of obtaining randomness raises (re-seeding, private
     Random instances, numpy) -- the generators must take all their randomness from random.shuffle"""
+    import gcmpy.gcm_algorithm  # noqa: F401  (networkx subclasses random.Random while it is imported)
+    import gcmpy.network  # noqa: F401
+
     def forbid(name):
         def f(*a, **k):
             raise Forbidden("unscripted randomness entry point used: " + name)
@@ -118,25 +134,25 @@ def strict_scripted(script):
     extra = ["seed", "setstate", "sample", "randint", "getrandbits", "uniform", "randbytes", "Random", "SystemRandom"]
     with oracles.scripted(script):
         for n in extra:
-            if hasattr(_random, n):
+            if hasattr(script, n):
+                saved[n] = getattr(_random, n)
+                setattr(_random, n, getattr(script, n))
+            elif hasattr(_random, n):
                 saved[n] = getattr(_random, n)
                 setattr(_random, n, forbid("random." + n))
         np_saved = {}
-        try:
-            import numpy as np
+        npr = _numpy_random()
+        if npr is not None:
             for n in ["shuffle", "permutation", "seed", "default_rng", "choice"]:
-                np_saved[n] = getattr(np.random, n)
-                setattr(np.random, n, forbid("numpy.random." + n))
-        except Exception:  # noqa: BLE001
-            np = None
+                np_saved[n] = getattr(npr, n)
+                setattr(npr, n, forbid("numpy.random." + n))
         try:
             yield script
         finally:
             for n, v in saved.items():
                 setattr(_random, n, v)
-            if np is not None:
-                for n, v in np_saved.items():
-                    setattr(np.random, n, v)
+            for n, v in np_saved.items():
+                setattr(npr, n, v)
 
 
 def construct(case, builders, names):
@@ -162,7 +178,7 @@ def construct(case, builders, names):
     return GCMAlgorithmMain.load_gcm_algorithm(params)
 
 
-def run_real(case, script):
+def run_real(case, script, patched=False):
     """one run of the real generator under `script`; returns the observation dict.
     Exceptions propagate (after the oracle state is restored)."""
     from gcmpy.names.network_names import NetworkNames
@@ -193,9 +209,13 @@ def run_real(case, script):
         names = [name_str(nms[0]) if nms else "n0" for nms in case["names"]]
     jds = [tuple(r) for r in case["jds"]]
     jds_before = [tuple(r) for r in jds]
-    with strict_scripted(script):
+    if patched:      # the caller already holds strict_scripted(script)
         alg = construct(case, builders, names)
         out = alg.random_clustered_graph(jds)
+    else:
+        with strict_scripted(script):
+            alg = construct(case, builders, names)
+            out = alg.random_clustered_graph(jds)
     obs = {
         "calls": [[e[0], e[1]] for e in log],
         "results": [[e[0], e[2]] for e in log],
